@@ -29,7 +29,71 @@ type c02Segment struct {
 
 type c02Case struct {
 	Segments   []c02Segment `json:"segments"`
-	ImageEvery int          `json:"image_every"` // crash image after every n-th statement of segment 0 (1 = every)
+	ImageEvery int          `json:"image_every"`       // crash image after every n-th statement of segment 0 (1 = every)
+	Preload    int          `json:"preload,omitempty"` // leading statements of segment 0 after which no image is taken (bulk load)
+}
+
+// c02Deep builds the start of a "deep tree" case: one table loaded with enough
+// rows for a three-level tree (more than 290 leaves), then activity at the
+// right-hand edge of the tree - inserts, deletes and updates of the most
+// recently inserted rows - which is where splits, tombstones and log replay meet
+// in a tree whose root is no longer restamped by every leaf split.
+func c02Deep(rt *rapid.T, db *model.DB) (stmts []model.Stmt, preload int) {
+	cr := model.Stmt{Kind: "create", Table: "big", Cols: []model.Col{{Name: "a", Type: model.TInt}, {Name: "s", Type: model.TVarchar, Len: 16}}}
+	gen.MustApply(db, cr)
+	stmts = append(stmts, cr)
+	rows := rapid.SampledFrom([]int{1100, 1170, 1200, 1300, 1500}).Draw(rt, "deep_rows")
+	n := 0
+	var recent []int64
+	ins := func(k int) {
+		s := model.Stmt{Kind: "insert", Table: "big"}
+		for i := 0; i < k; i++ {
+			s.Rows = append(s.Rows, []model.Val{model.Int(int64(n)), model.Str(fmt.Sprintf("v%d", n%7))})
+			recent = append(recent, int64(n))
+			n++
+		}
+		if len(recent) > 8 {
+			recent = recent[len(recent)-8:]
+		}
+		gen.MustApply(db, s)
+		stmts = append(stmts, s)
+	}
+	for n < rows {
+		k := 100
+		if rows-n < k {
+			k = rows - n
+		}
+		ins(k)
+	}
+	preload = len(stmts)
+	defer func() {
+		for i := range stmts {
+			stmts[i].SQL = gen.RenderStmt(gen.Plain(), stmts[i])
+		}
+	}()
+	eq := func(v int64) *model.Cond {
+		lit := model.Int(v)
+		return &model.Cond{Or: [][]model.Cmp{{{L: model.Operand{Col: "a"}, Op: "=", R: model.Operand{Lit: &lit}}}}}
+	}
+	for k := rapid.IntRange(3, 12).Draw(rt, "deep_ops"); k > 0; k-- {
+		switch rapid.IntRange(0, 5).Draw(rt, "deep_op") {
+		case 0, 1:
+			ins(rapid.IntRange(1, 4).Draw(rt, "deep_ins"))
+		case 2, 3:
+			v := recent[rapid.IntRange(0, len(recent)-1).Draw(rt, "deep_del")]
+			s := model.Stmt{Kind: "delete", Table: "big", Where: eq(v)}
+			gen.MustApply(db, s)
+			stmts = append(stmts, s)
+		case 4:
+			v := recent[rapid.IntRange(0, len(recent)-1).Draw(rt, "deep_upd")]
+			s := model.Stmt{Kind: "update", Table: "big", Set: []model.Assign{{Col: "s", Val: model.Str("upd")}}, Where: eq(v)}
+			gen.MustApply(db, s)
+			stmts = append(stmts, s)
+		case 5:
+			ins(rapid.SampledFrom([]int{5, 9, 17}).Draw(rt, "deep_ins_many"))
+		}
+	}
+	return stmts, preload
 }
 
 func c02Gen(rt *rapid.T) c02Case {
@@ -49,6 +113,10 @@ func c02Gen(rt *rapid.T) c02Case {
 			cfg.MaxTables = 9
 		}
 		var stmts []model.Stmt
+		if si == 0 && rapid.IntRange(0, 31).Draw(rt, "deep") == 13 {
+			stmts, c.Preload = c02Deep(rt, db)
+			cfg.MaxStmts = 6
+		}
 		if si > 0 && burst {
 			// start the segment with a multi-row insert into a small table: a root
 			// move right after the restart
@@ -157,7 +225,7 @@ func c02Run(c c02Case, st *vlib.Stats) string {
 			if s.Kind == "create" {
 				flushedSomething = true // CREATE TABLE ends with a flush
 			}
-			if (si == 0 || Cfg.Tier == "thorough") && c.ImageEvery > 0 && (i+1)%c.ImageEvery == 0 && i+1 < len(seg.Stmts) {
+			if (si == 0 || Cfg.Tier == "thorough") && c.ImageEvery > 0 && (i+1)%c.ImageEvery == 0 && i+1 < len(seg.Stmts) && (si > 0 || i+1 >= c.Preload) {
 				// crash right after this statement, on a copy
 				dirty := len(eng.RS().VerifDirtyOffsets())
 				if dirty > 0 && flushedSomething {
@@ -271,6 +339,9 @@ func c02Run(c c02Case, st *vlib.Stats) string {
 	}
 	if len(c.Segments) >= 2 {
 		labels = append(labels, "multi-crash")
+	}
+	if c.Preload > 0 {
+		labels = append(labels, "deep-tree(three levels)")
 	}
 	st.AddExtra("crash_images_recovered", images+2*len(c.Segments))
 	st.Record(b, mixed && hasMut, labels...)
